@@ -31,42 +31,141 @@ pub fn test_history(p: &AgentProp, h: &History, st: &mut Stats) -> TestResult {
             if d.tag == p.tag {
                 Err(Fail::new(&d.sig, d.msg))
             } else {
-                // C05 / C07 state that certain calls change nothing (refused duplicate send, messages for
-                // ids that are not outstanding, incoming requests; forged responses). If the history
-                // only goes wrong because such a call is present, the blame is this property's:
-                // control run = the same history without those calls.
-                let removable: &[usize] = match p.tag {
-                    "C05" => &info.noeffect,
-                    "C07" => &info.forged,
-                    _ => &[],
-                };
-                if removable.iter().any(|s| *s <= d.step) {
-                    let control = agentsim::without_steps(h, removable);
-                    let control_ok = (0..3).all(|_| matches!(guard(|| agentsim::run_history(&control)), Ok(Ok(_))));
-                    let original_fails = (0..3).filter(|_| !matches!(guard(|| agentsim::run_history(h)), Ok(Ok(_)))).count() >= 3;
-                    if control_ok && original_fails {
-                        let which = if p.tag == "C05" {
-                            "calls that must change nothing (refused duplicate send / message for an id that is not outstanding / incoming request / non-request send)"
-                        } else {
-                            "responses that must be dropped (no, wrong or corrupted integrity, or no remote credentials)"
-                        };
-                        return Err(Fail::new(
-                            &format!("{}-noeffect-call-had-effect", p.tag.to_lowercase()),
-                            format!(
-                                "the history goes wrong only because of {} at steps {:?}: with them the agent deviates ({}), without them it behaves correctly",
-                                which,
-                                removable.iter().filter(|s| **s <= d.step).collect::<Vec<_>>(),
-                                d.msg
-                            ),
-                        ));
-                    }
-                }
                 // a discrepancy that another property states: left to that property's check
                 st.class(&format!("history ended by a discrepancy belonging to {} (not judged here)", d.tag));
                 Ok(())
             }
         }
     }
+}
+
+// ---------------------------------------------------------------------------------------------
+// metamorphic "this call changes nothing" relations (C05: refused duplicate send, message for an id
+// that is not outstanding, incoming request/indication, send of a non-request; C07: dropped response
+// to an outstanding transaction)
+
+#[derive(Clone, Copy, PartialEq, Eq, Debug)]
+pub enum Relation {
+    /// C05: calls that must leave every transaction untouched
+    NoEffect,
+    /// C07: responses the agent dropped although their transaction is outstanding
+    Dropped,
+}
+
+fn lines_outstanding(step: &[String]) -> Vec<&String> {
+    step.iter().filter(|l| l.starts_with("outstanding ")).collect()
+}
+
+/// Executes `h` (every poll a drain, so that the state after each step does not depend on map
+/// order), finds the calls of the relation's kind from the agent's own replies, replaces them by
+/// no-ops and executes the result at exactly the same instants: every reply of every other step
+/// (transmissions, completions, wake-up instants, outstanding flags) must be identical.
+/// Returns the number of calls that were neutralised.
+pub fn no_effect_relation(rel: Relation, h: &History, st: &mut Stats) -> TestResult {
+    use crate::agentsim::{record_run_clock, Adv, Op};
+    st.eval();
+    let origin = agentsim::process_origin();
+    let tag = if rel == Relation::NoEffect { "c05" } else { "c07" };
+    let run = |h: &History, forced: Option<&[u64]>| guard(|| record_run_clock(h, origin, 0, None, forced)).map_err(|p| Fail::new(&format!("{}-panic", tag), format!("the agent panicked: {}", p)));
+    let Some((base, clock)) = run(h, None)? else {
+        st.class("agent does not settle at one instant (not judged by this relation)");
+        return Ok(());
+    };
+    // the same history at the same instants must reproduce itself, otherwise nothing can be attributed
+    let Some((again, _)) = run(h, Some(&clock))? else { return Ok(()) };
+    if again != base {
+        st.class("replay not reproducible (C20's business, not judged here)");
+        return Ok(());
+    }
+    // which ids are outstanding before each step, per the agent's own answers
+    let outstanding_before = |i: usize, id: u128| -> bool {
+        if i == 0 {
+            return false;
+        }
+        base[i - 1].iter().any(|l| *l == format!("outstanding {:x} true", id))
+    };
+    let mut neutral: Vec<usize> = vec![];
+    for (i, op) in h.ops.iter().enumerate() {
+        let reply_has = |needle: &str| base[i].iter().any(|l| l.contains(needle));
+        let pick = match (rel, op) {
+            (Relation::NoEffect, Op::Send { class, .. }) => class % 4 != 0 || reply_has(" send err AlreadyInProgress"),
+            (Relation::NoEffect, Op::SendConfigured { .. }) => reply_has(" send err AlreadyInProgress"),
+            (Relation::NoEffect, Op::Incoming { .. }) => true,
+            (Relation::NoEffect, Op::Response { id, .. }) => !outstanding_before(i, agentsim::pool_id(*id)) && reply_has("handle_stun -> drop"),
+            (Relation::Dropped, Op::Response { id, .. }) => outstanding_before(i, agentsim::pool_id(*id)) && reply_has("handle_stun -> drop"),
+            _ => false,
+        };
+        if pick {
+            neutral.push(i);
+        }
+    }
+    if neutral.is_empty() {
+        st.class("history without such a call");
+        return Ok(());
+    }
+    let control = History {
+        tcp: h.tcp,
+        ops: h.ops.iter().enumerate().map(|(i, o)| if neutral.contains(&i) { Op::Advance(Adv::Zero) } else { o.clone() }).collect(),
+    };
+    let Some((ctl, _)) = run(&control, Some(&clock))? else {
+        return Err(Fail::new(
+            &format!("{}-noeffect-call-had-effect", tag),
+            format!("without the calls at steps {:?} the agent no longer settles", neutral),
+        ));
+    };
+    // peer validation is C15's statement and is not compared here
+    let keep = |step: &Vec<String>| -> Vec<String> { step.iter().filter(|l| !l.starts_with("validated ")).cloned().collect() };
+    for i in 0..h.ops.len() {
+        let (a, b): (Vec<String>, Vec<String>) = if neutral.contains(&i) {
+            (lines_outstanding(&base[i]).into_iter().cloned().collect(), lines_outstanding(&ctl[i]).into_iter().cloned().collect())
+        } else {
+            (keep(&base[i]), keep(&ctl[i]))
+        };
+        if a != b {
+            let xa = a.iter().find(|l| !b.contains(l)).cloned().unwrap_or_default();
+            let xb = b.iter().find(|l| !a.contains(l)).cloned().unwrap_or_default();
+            let culprit = neutral.iter().filter(|s| **s <= i).last().copied().unwrap_or(0);
+            let what = if rel == Relation::NoEffect {
+                "calls that must change nothing about any transaction (refused duplicate send / message for an id that is not outstanding / incoming request or indication / send of a non-request)"
+            } else {
+                "responses that the agent dropped (their transaction must stay outstanding with its timing unchanged)"
+            };
+            return Err(Fail::new(
+                &format!("{}-noeffect-call-had-effect", tag),
+                format!(
+                    "{} at steps {:?} (last before the difference: step {} {:?}) changed what the agent does afterwards: at step {} ({:?}, t={} ms) it answers '{}' with them and '{}' when they are replaced by no-ops (same instants, every poll a drain)",
+                    what,
+                    neutral.iter().filter(|s| **s <= i).collect::<Vec<_>>(),
+                    culprit,
+                    h.ops[culprit],
+                    i,
+                    h.ops[i],
+                    clock[i],
+                    xa,
+                    xb
+                ),
+            ));
+        }
+    }
+    let later_events = base.iter().enumerate().filter(|(i, _)| *i > neutral[0]).flat_map(|(_, s)| s.iter()).filter(|l| l.contains(" tx ") || l.contains(" timeout") || l.contains(" cancelled")).count();
+    st.class(if rel == Relation::NoEffect { "no-effect relation compared" } else { "dropped-response relation compared" });
+    if later_events > 0 {
+        st.class("relation compared with later retransmissions / completions");
+        st.nontrivial(digest(&(h, "relation")));
+        st.sample("relation", 2, || json!({"tcp": h.tcp, "neutralised_steps": neutral, "ops": format!("{:?}", h.ops).chars().take(700).collect::<String>()}));
+    }
+    Ok(())
+}
+
+/// make sure time passes and polls happen in a history used for a relation
+pub fn with_polls(mut h: History) -> History {
+    use crate::agentsim::Op;
+    if !h.ops.iter().any(|o| matches!(o, Op::Poll | Op::Drain)) {
+        h.ops.push(Op::Drain);
+    }
+    h.ops.push(Op::Advance(crate::agentsim::Adv::ToWake));
+    h.ops.push(Op::Drain);
+    h
 }
 
 pub fn replay_history(p: &AgentProp, case: &Value, st: &mut Stats) -> Result<TestResult, String> {
